@@ -537,6 +537,7 @@ def one_file(ctx, impl, drv, f, parser):
         if (r["toc_gps"] - GPS0).days // 7 != (r["toe_gps"] - GPS0).days // 7 or (r["toc_gps"] - GPS0).days // 7 != (r["ttx_gps"] - GPS0).days // 7:
             ctx.count("records whose toe / transmission time lies in another week than the epoch")
     a = None
+    rows = None
     if "model" in f:
         F = f["model"]
         skips = [it for it in F["items"] if it["kind"] == "S"]
@@ -575,6 +576,7 @@ def one_file(ctx, impl, drv, f, parser):
             i = next((k for k, (x, y) in enumerate(zip(la, lb)) if x != y), -1)
             ctx.disagree("rinex3 spec writer (Lean render3) vs independent writer (Python)", case, la[i] if i >= 0 else f"{len(la)} lines", lb[i] if i >= 0 else f"{len(lb)} lines")
         a = "RAISES" if m["cols"] == "RAISES" else json.dumps(m["cols"])
+        rows = m
     if "model2" in f:
         F = f["model2"]
         for it in F["items"]:
@@ -594,6 +596,7 @@ def one_file(ctx, impl, drv, f, parser):
             i = next((k for k, (x, y) in enumerate(zip(la, lb)) if x != y), -1)
             ctx.disagree("rinex2 spec writer (Lean render2) vs independent writer (Python)", case, la[i] if i >= 0 else f"{len(la)} lines", lb[i] if i >= 0 else f"{len(lb)} lines")
         a = "RAISES" if m["cols"] == "RAISES" else json.dumps(m["cols"])
+        rows = m
     st, p, fn = impl.parse(parser, f["text"], f["ext"])
     if a is None:
         a = drv.ask1(f"c12 {parser} {f['ext'][-1]} {hexs(f['text'])}")
@@ -608,8 +611,71 @@ def one_file(ctx, impl, drv, f, parser):
         d = diff_columns(model_columns(a), impl_columns(p))
         if d:
             ctx.disagree(f"{parser} columns", case, d, "")
+    if rows is not None:
+        # post_record / post_record_v2: the columns computed record by record (postSem / postSem2, compiled) vs the real parser,
+        # and the compiled instance of the theorem (postV3 / postV2 on the read columns = the per-record columns)
+        ctx.count("per-record rows (postSem) compared with the real parser")
+        if not rows.get("post", False):
+            ctx.disagree(f"{parser}: compiled instance of post_record (postV3/postV2 columns differ from the per-record columns)", case, "post=false", "")
+        if rows["rows"] == "RAISES":
+            ctx.disagree(f"{parser} (per-record model refuses the file, code returns)", case, "RAISES", "value")
+        else:
+            d = diff_columns(model_columns(json.dumps(rows["rows"])), impl_columns(p))
+            if d:
+                ctx.disagree(f"{parser} per-record columns (postSem) vs real parser", case, d, "")
     oracle(ctx, case, f, p, parser)
+    if ctx.evaluations % 3 == 0:
+        dataset_form(ctx, case, p, parser)
     return fn
+
+
+def dataset_form(ctx, case, p, parser):
+    """`as_dataset()` is the same table as `as_dict()` / `parser.data`: same number of rows, the same fields, every value the same
+    (None of a system-specific field = NaN), times the same instants"""
+    import math
+
+    ctx.count("as_dataset compared with the parsed columns")
+    try:
+        with warnings.catch_warnings():
+            warnings.simplefilter("ignore")
+            ds = p.as_dataset()
+    except BaseException as e:  # noqa: BLE001
+        if isinstance(e, KeyboardInterrupt):
+            raise
+        ctx.violate(f"dataset:raises:{type(e).__name__}", f"{parser}.as_dataset() raises {type(e).__name__}: {e}", case)
+        return
+    data = p.data
+    n = len(data["time"])
+    if ds.num_obs != n:
+        ctx.violate("dataset:num_obs", f"{parser}.as_dataset() has {ds.num_obs} rows, the parser returned {n} records", case)
+        return
+    missing = sorted(set(data) - set(ds.fields))
+    extra = sorted(set(ds.fields) - set(data))
+    if missing or extra:
+        ctx.violate("dataset:fields", f"{parser}.as_dataset(): fields missing {missing}, fields not in the parsed data {extra}", case)
+        return
+    for k, v in data.items():
+        if k in ("time", "toe", "transmission_time"):
+            a, b = gps_seconds(ds[k]), gps_seconds(v)
+            bad = next((i for i in range(n) if abs(a[i] - b[i]) > TIME_TOL), None)
+            if bad is not None:
+                ctx.violate(f"dataset:time:{k}", f"{parser}.as_dataset(): {k}[{bad}] is {float(a[bad])} s, the parser returned {float(b[bad])} s (GPS seconds)",
+                            {**case, "record": bad})
+                return
+        elif k in ("nav_type", "satellite", "system"):
+            got = [str(x) for x in ds[k]]
+            if got != [str(x) for x in v]:
+                ctx.violate(f"dataset:text:{k}", f"{parser}.as_dataset(): text field {k} differs from the parsed column", case)
+                return
+        else:
+            col = np.atleast_1d(np.asarray(ds[k], dtype=float))
+            for i, x in enumerate(v):
+                y = float(col[i])
+                same = math.isnan(y) if x is None or (isinstance(x, float) and math.isnan(x)) else y == float(x)
+                if not same:
+                    ctx.violate(f"dataset:value:{k if k in ('gnss_week', 'iode') else 'field'}", f"{parser}.as_dataset(): {k}[{i}] = {y!r}, the parser returned {x!r}",
+                                {**case, "record": i, "field": k})
+                    return
 
 
 def float_cases(ctx, drv, rng, n):
